@@ -27,6 +27,27 @@ def pyFloorDiv (a b : Int) : Except PyErr Int :=
 def pyTruncDiv (a b : Int) : Except PyErr Int :=
   if b = 0 then .error .zeroDiv else .ok (tquot a b)
 
+/-- An exact fraction standing for a Python `float` in generated code.  IEEE rounding is NOT modelled: the
+    real code's result is compared with this exact value by the correspondence.  Every operation below keeps
+    `d > 0` when its inputs have it. -/
+structure PyQ where
+  n : Int
+  d : Int
+deriving Repr, DecidableEq, Inhabited
+
+def PyQ.ofInt (a : Int) : PyQ := ⟨a, 1⟩
+def PyQ.abs (q : PyQ) : PyQ := ⟨((Int.natAbs q.n : Nat) : Int), q.d⟩
+def PyQ.mul (a b : PyQ) : PyQ := ⟨a.n * b.n, a.d * b.d⟩
+/-- `a < b` for positive denominators -/
+def PyQ.lt (a b : PyQ) : Bool := decide (a.n * b.d < b.n * a.d)
+/-- `floor` of the fraction -/
+def PyQ.floor (q : PyQ) : Int := fquot q.n q.d
+/-- Python `a / b` (true division): `ZeroDivisionError` for `b = 0`; the denominator stays positive. -/
+def pyTrueDiv (a b : PyQ) : Except PyErr PyQ :=
+  if b.n = 0 then .error .zeroDiv
+  else if 0 < b.n then .ok ⟨a.n * b.d, a.d * b.n⟩
+  else .ok ⟨-(a.n * b.d), -(a.d * b.n)⟩
+
 /-- `[f x for x in l]` where `f` may raise: the first error wins, otherwise all results in order -/
 def mapME {β γ : Type} (f : β → Except PyErr γ) : List β → Except PyErr (List γ)
   | [] => .ok []
